@@ -112,7 +112,11 @@ def run(P, rep, tier):
     pa = P.fn('picture_analysis_kernel')
     pads = [ev for ev, n in pa.calls('pad_input_pictures')]
     if not pads:
-        raise AnalysisBroken('picture_analysis_kernel no longer calls pad_input_pictures')
+        # the mechanism itself is gone: that is the violation (the thread function still exists, so this is not a moved anchor)
+        rep.ob('C21.PADFIRST', 'pad-call-present', False, pa.loc(),
+               'picture_analysis_kernel no longer regenerates the picture borders (no call to pad_input_pictures): bytes from the caller\'s stride padding reach the analysis')
+        rep.floor('C21.PADFIRST', 1)
+        return
     pad = pads[0]
     pic = pstr(strip(pad['e'][2][1]))
     # the picture control set the picture was taken from
